@@ -67,9 +67,9 @@ def seqOp (trx : Trx) : List String → Option (Trx × String)
   | ["E", hsn, maio, ma] => do
       let hsn ← parseInt? hsn; let maio ← parseInt? maio; let ma ← parsePairList? ma
       match trx.enableFh hsn maio ma with
-      | .ok t => pure (t, "ok")
-      | .error e => pure (trx, "EXC:" ++ excName e)
-  | ["D"] => pure (trx.disableFh, "-")
+      | .ok _ => pure (trx.applyOp (.enable hsn maio ma), "ok")
+      | .error e => pure (trx.applyOp (.enable hsn maio ma), "EXC:" ++ excName e)
+  | ["D"] => pure (trx.applyOp .disable, "-")
   | ["Q", fn] => do
       let fn ← parseNat? fn
       pure (trx, s!"{renderFreq (trx.getRxFreq fn)}/{renderFreq (trx.getTxFreq fn)}")
